@@ -58,6 +58,35 @@ type ctx struct {
 	defText      map[string]string // name -> "Definition name : ty := term."
 	fileDefs     []string          // names used by the cases of the current file, in first-use order
 	fileDefSet   map[string]bool
+	streams      map[string]*caseStream // parked case streams (see withStream)
+}
+
+// caseStream: a second kind of Coq case (own header / case type / mismatch expression) written to its own files
+type caseStream struct {
+	header, caseType, mismatchExpr string
+	cases, descs                   []string
+	fileDefs                       []string
+	fileDefSet                     map[string]bool
+	perFile                        int
+}
+
+// withStream runs f with the case-file settings and buffers of the named stream, then restores the current ones.
+func (c *ctx) withStream(name, header, caseType, mismatchExpr string, perFile int, f func()) {
+	if c.streams == nil {
+		c.streams = map[string]*caseStream{}
+	}
+	st, ok := c.streams[name]
+	if !ok {
+		st = &caseStream{header: header, caseType: caseType, mismatchExpr: mismatchExpr, perFile: perFile}
+		c.streams[name] = st
+	}
+	saved := &caseStream{c.header, c.caseType, c.mismatchExpr, c.cases, c.descs, c.fileDefs, c.fileDefSet, c.perFile}
+	c.header, c.caseType, c.mismatchExpr, c.cases, c.descs, c.fileDefs, c.fileDefSet, c.perFile =
+		st.header, st.caseType, st.mismatchExpr, st.cases, st.descs, st.fileDefs, st.fileDefSet, st.perFile
+	f()
+	st.cases, st.descs, st.fileDefs, st.fileDefSet = c.cases, c.descs, c.fileDefs, c.fileDefSet
+	c.header, c.caseType, c.mismatchExpr, c.cases, c.descs, c.fileDefs, c.fileDefSet, c.perFile =
+		saved.header, saved.caseType, saved.mismatchExpr, saved.cases, saved.descs, saved.fileDefs, saved.fileDefSet, saved.perFile
 }
 
 func (c *ctx) thorough() bool { return c.tier == "thorough" }
@@ -151,6 +180,9 @@ func (c *ctx) flush() {
 
 func (c *ctx) finish() {
 	c.flush()
+	for name, st := range c.streams {
+		c.withStream(name, st.header, st.caseType, st.mismatchExpr, st.perFile, func() { c.flush() })
+	}
 	keys := make([]string, 0, len(c.rep.Dist))
 	for k := range c.rep.Dist {
 		keys = append(keys, k)
